@@ -36,11 +36,11 @@ Section HevcEr.
     | exact (e_err B) | exact (e_B B) | exact he_more | exact he_trailing | exact he_more_true
     | exact he_more_err | exact he_flag_true | exact he_align ].
 
-  Lemma er_hsps fuel : B < N.of_nat fuel -> J invB mu_er hsps_wf (hparse_sps_d ER fuel).
+  Lemma er_hsps fuel : B < N.of_nat fuel -> J invB mu_er hsps_tight (hparse_sps_d ER fuel).
   Proof. intros Hf. eapply (J_hparse_sps_d ER invB mu_er); try hyps. exact Hf. Qed.
 
-  Lemma er_hpps fuel spsmap : B < N.of_nat fuel -> JO invB mu_er hpps_wf (hparse_pps_d ER fuel spsmap).
-  Proof. intros Hf. eapply (JO_hparse_pps_d ER invB mu_er); try hyps. exact Hf. Qed.
+  Lemma er_hpps fuel spsmap : B < N.of_nat fuel -> J invB mu_er hpps_wf (hparse_pps_d ER fuel spsmap).
+  Proof. intros Hf. eapply (J_hparse_pps_d ER invB mu_er); try hyps. exact Hf. Qed.
 
   Lemma er_hslice fuel spsmap ppsmap : B < N.of_nat fuel ->
     (forall id sp, spsmap id = Some sp -> hsps_wf sp) ->
@@ -52,8 +52,15 @@ End HevcEr.
 Lemma hevc_fuel_enough nalu : 8 * lenN nalu + 1 < N.of_nat (hevc_fuel nalu).
 Proof. unfold hevc_fuel, lenN. lia. Qed.
 
-Lemma c16_hparse_sps_total nalu :
-  c16_hparse_sps nalu = Err \/ exists s, c16_hparse_sps nalu = Ok s /\ hsps_wf s.
+Lemma hsps_tight_wf' sp : hsps_tight sp -> hsps_wf sp.
+Proof.
+  intros (H1 & H2 & H3). split; [unfold lenN in H2; lia|].
+  eapply Forall_impl; [|exact H3]. intros r Hr. unfold rps_ok, rps_le in *. lia.
+Qed.
+
+(* at most 64 short-term reference picture sets, as many as announced, every NumDeltaPocs <= 95 *)
+Lemma c16_hparse_sps_tight nalu :
+  c16_hparse_sps nalu = Err \/ exists s, c16_hparse_sps nalu = Ok s /\ hsps_tight s.
 Proof.
   set (B := 8 * lenN nalu + 1).
   assert (Hi : rok (rinit nalu) /\ mu_er (rinit nalu) <= B).
@@ -63,16 +70,31 @@ Proof.
     rewrite E; [left; reflexivity|right; eauto].
 Qed.
 
+Lemma c16_hparse_sps_total nalu :
+  c16_hparse_sps nalu = Err \/ exists s, c16_hparse_sps nalu = Ok s /\ hsps_wf s.
+Proof.
+  destruct (c16_hparse_sps_tight nalu) as [E|(s & E & H)]; [left; exact E|right].
+  exists s. split; [exact E|apply hsps_tight_wf', H].
+Qed.
+
+(* the same with plain numbers: the constants are the guards of hevc/sps.go (64 sets, 16 + 16 pictures) *)
+Lemma c16_hparse_sps_rps_bound nalu s : c16_hparse_sps nalu = Ok s ->
+  h_num_st_rps s <= 64 /\ lenN (h_st_rps s) = h_num_st_rps s /\
+  Forall (fun r => rps_ndelta r <= 95) (h_st_rps s).
+Proof.
+  intros E. destruct (c16_hparse_sps_tight nalu) as [E2|(s2 & E2 & H)]; [congruence|].
+  assert (s2 = s) by congruence. subst s2. exact H.
+Qed.
+
 Lemma c16_hparse_pps_total spsmap nalu :
-  c16_hparse_pps spsmap nalu = Err \/ c16_hparse_pps spsmap nalu = OutOfFuel \/
-  exists p, c16_hparse_pps spsmap nalu = Ok p /\ hpps_wf p.
+  c16_hparse_pps spsmap nalu = Err \/ exists p, c16_hparse_pps spsmap nalu = Ok p /\ hpps_wf p.
 Proof.
   set (B := 8 * lenN nalu + 1).
   assert (Hi : rok (rinit nalu) /\ mu_er (rinit nalu) <= B).
   { split; [apply rok_init|rewrite mu_er_init; unfold B; lia]. }
   unfold c16_hparse_pps, run.
   destruct (er_hpps B (hevc_fuel nalu) spsmap (hevc_fuel_enough nalu) (rinit nalu) Hi)
-    as [E|[E|(a & s' & E & _ & _ & H)]]; rewrite E; [left; reflexivity|right; left; reflexivity|right; right; eauto].
+    as [E|(a & s' & E & _ & _ & H)]; rewrite E; [left; reflexivity|right; eauto].
 Qed.
 
 Lemma c16_hparse_slice_total spsmap ppsmap nalu :
@@ -128,10 +150,9 @@ Proof.
 Qed.
 
 Lemma c16_hparse_pps_total_b spsmap nalu :
-  c16_hparse_pps spsmap nalu = Err \/ c16_hparse_pps spsmap nalu = OutOfFuel \/
-  exists p, c16_hparse_pps spsmap nalu = Ok p /\ hpps_wfb p = true.
+  c16_hparse_pps spsmap nalu = Err \/ exists p, c16_hparse_pps spsmap nalu = Ok p /\ hpps_wfb p = true.
 Proof.
-  destruct (c16_hparse_pps_total spsmap nalu) as [E|[E|(p & E & H)]]; [left; exact E|right; left; exact E|right; right].
+  destruct (c16_hparse_pps_total spsmap nalu) as [E|(p & E & H)]; [left; exact E|right].
   exists p. split; [exact E|apply hpps_wfb_ok, H].
 Qed.
 
@@ -148,8 +169,7 @@ Qed.
 (* the whole pipeline: hostile SPS -> PPS parsed against it -> slice header parsed against both *)
 Lemma hevc_ps_and_slice_total cs cp a b rest :
   forallb hsps_wfb cs = true -> forallb hpps_wfb cp = true ->
-  hevc_ps_and_slice cs cp a b rest = Err \/ hevc_ps_and_slice cs cp a b rest = OutOfFuel \/
-  exists h, hevc_ps_and_slice cs cp a b rest = Ok h.
+  hevc_ps_and_slice cs cp a b rest = Err \/ exists h, hevc_ps_and_slice cs cp a b rest = Ok h.
 Proof.
   intros Hcs Hcp. unfold hevc_ps_and_slice. cbv zeta.
   assert (Hs : Forall hsps_wf (cs ++ match c16_hparse_sps a with Ok s => [s] | _ => [] end)).
@@ -157,20 +177,12 @@ Proof.
     - apply Forall_forall. intros x Hx. apply hsps_wfb_ok. rewrite forallb_forall in Hcs. apply Hcs, Hx.
     - destruct (c16_hparse_sps_total a) as [E|(s & E & Hw)]; rewrite E; [constructor|constructor; [exact Hw|constructor]]. }
   set (spss := cs ++ _) in *.
-  destruct (c16_hparse_pps_total (hsps_has spss) b) as [E|[E|(p & E & Hw)]]; rewrite E.
-  - destruct (c16_hparse_slice_total (hsps_lookup spss) (hpps_lookup (cp ++ [])) rest) as [E2|(h & E2)].
-    + apply hsps_lookup_wf, Hs.
-    + apply hpps_lookup_wf. rewrite app_nil_r. apply Forall_forall. intros x Hx. apply hpps_wfb_ok.
-      rewrite forallb_forall in Hcp. apply Hcp, Hx.
-    + left. exact E2.
-    + right. right. eauto.
-  - right. left. reflexivity.
-  - destruct (c16_hparse_slice_total (hsps_lookup spss) (hpps_lookup (cp ++ [p])) rest) as [E2|(h & E2)].
-    + apply hsps_lookup_wf, Hs.
-    + apply hpps_lookup_wf. apply Forall_app. split; [|constructor; [exact Hw|constructor]].
-      apply Forall_forall. intros x Hx. apply hpps_wfb_ok. rewrite forallb_forall in Hcp. apply Hcp, Hx.
-    + left. exact E2.
-    + right. right. eauto.
+  apply c16_hparse_slice_total.
+  - apply hsps_lookup_wf, Hs.
+  - apply hpps_lookup_wf. apply Forall_app. split.
+    + apply Forall_forall. intros x Hx. apply hpps_wfb_ok. rewrite forallb_forall in Hcp. apply Hcp, Hx.
+    + destruct (c16_hparse_pps_total (hsps_has spss) b) as [E|(p & E & Hw)]; rewrite E;
+        [constructor|constructor; [exact Hw|constructor]].
 Qed.
 
 (* ------------------------------------------------------------------ the other two HEVC pipelines *)
@@ -189,28 +201,24 @@ Proof.
   destruct (c16_hparse_sps_total u) as [E|(s & E & Hw)]; rewrite E; [constructor|constructor; [exact Hw|constructor]].
 Qed.
 
-Lemma parse_hpps_list_wf spss : forall l ps, parse_hpps_list spss l = Some ps -> Forall hpps_wf ps.
+Lemma parse_hpps_list_wf spss : forall l, exists ps, parse_hpps_list spss l = Some ps /\ Forall hpps_wf ps.
 Proof.
-  induction l as [|u t IH]; intros ps; cbn [parse_hpps_list].
-  - intros E. inversion E. constructor.
-  - destruct (c16_hparse_pps_total (hsps_has spss) u) as [E|[E|(p & E & Hw)]]; rewrite E.
-    + destruct (parse_hpps_list spss t) as [ps'|]; [|discriminate]. intros X. inversion X. subst. cbn [app]. apply IH. reflexivity.
-    + discriminate.
-    + destruct (parse_hpps_list spss t) as [ps'|]; [|discriminate]. intros X. inversion X. subst.
-      cbn [app]. constructor; [exact Hw|apply IH; reflexivity].
+  induction l as [|u t IH]; cbn [parse_hpps_list].
+  - exists []. split; [reflexivity|constructor].
+  - destruct IH as (ps & E & Hps). rewrite E. eexists. split; [reflexivity|].
+    apply Forall_app. split; [|exact Hps].
+    destruct (c16_hparse_pps_total (hsps_has spss) u) as [E2|(p & E2 & Hw)]; rewrite E2;
+      [constructor|constructor; [exact Hw|constructor]].
 Qed.
 
 Lemma hevc_confrec_and_slice_total recb rest :
-  hevc_confrec_and_slice recb rest = Err \/ hevc_confrec_and_slice recb rest = OutOfFuel \/
-  exists h, hevc_confrec_and_slice recb rest = Ok h.
+  hevc_confrec_and_slice recb rest = Err \/ exists h, hevc_confrec_and_slice recb rest = Ok h.
 Proof.
   unfold hevc_confrec_and_slice.
   destruct (C16ConfRecProofs.hevc_confrec_total recb) as [E|(r & t & E & _)]; rewrite E; [left; reflexivity|].
-  cbv zeta. destruct (parse_hpps_list _ _) as [ppss|] eqn:Ep; [|right; left; reflexivity].
-  destruct (c16_hparse_slice_total (hsps_lookup (parse_hsps_list (hevc_rec_nalus r 33))) (hpps_lookup ppss) rest)
-    as [E2|(h & E2)].
+  cbv zeta.
+  destruct (parse_hpps_list_wf (parse_hsps_list (hevc_rec_nalus r 33)) (hevc_rec_nalus r 34)) as (ppss & Ep & Hps).
+  rewrite Ep. apply c16_hparse_slice_total.
   - apply hsps_lookup_wf, parse_hsps_list_wf.
-  - apply hpps_lookup_wf. eapply parse_hpps_list_wf. exact Ep.
-  - left. exact E2.
-  - right. right. eauto.
+  - apply hpps_lookup_wf. exact Hps.
 Qed.
